@@ -115,8 +115,20 @@ def c06_custom(pid, tier, plan, scr, hbin, specdir):
         prefix = behs[0][:-1]
         inputs = [b[-1] for b in behs]
         if sample and len(inputs) > sample:
-            random.Random(sd).shuffle(inputs)
-            inputs = inputs[:sample]
+            # always: transactions with two storage purchases for ONE registration (same type, same id; top-level or wrapped) at
+            # every fee class - the per-registration bookkeeping of the fee and slot checks; the rest is a seeded sample
+            def flat(ms):
+                out = []
+                for m in ms:
+                    out += flat(m["msgs"]) if m.get("t") in ("Exec", "GExec", "GovProp") else [m]
+                return out
+            def twin_purchases(ev):
+                ms = flat(ev["msgs"])
+                return len(ms) == 2 and ms[0].get("t") in ("WBuy", "BBuy") and ms[0].get("t") == ms[1].get("t") and ms[0].get("id") == ms[1].get("id")
+            prio = [ev for ev in inputs if twin_purchases(ev)]
+            rest = [ev for ev in inputs if not twin_purchases(ev)]
+            random.Random(sd).shuffle(rest)
+            inputs = prio + rest[:max(sample - len(prio), sample // 2)]
         packed = list(prefix) + [dict(ev, reset=True) for ev in inputs]
         rec, _ = vlib.record_behaviours(hbin, [packed], scr, name="adm-" + cfg.replace(".cfg", ""))
         recs.append((rec, "tlc-enumerated CheckTx inputs:" + cfg, len(inputs)))
